@@ -58,12 +58,10 @@ pub fn strategy(s: &'static dyn Proto) -> BoxedStrategy<Case> {
 
 /// find the recorded `nsk`-byte draw whose DeriveDiffieHellmanKeyPair has public key `pk`
 fn witness_keypair(r: &TapeRng, m: &Meta, pk: &[u8]) -> Option<(Vec<u8>, Vec<u8>)> {
-    for d in &r.draws {
-        if d.bytes.len() == m.nsk {
-            if let Some((sk, p)) = rm::derive_dh_key_pair(m.ke, m.oprf, &d.bytes) {
-                if p == pk {
-                    return Some((d.bytes.clone(), sk));
-                }
+    for (_, seed) in r.windows(m.nsk) {
+        if let Some((sk, p)) = rm::derive_dh_key_pair(m.ke, m.oprf, &seed) {
+            if p == pk {
+                return Some((seed, sk));
             }
         }
     }
@@ -218,8 +216,8 @@ pub fn check(s: &'static dyn Proto, c: &Case, st: &mut Stats, _k: &KnownFindings
         li.rec_client_pk = fake_pk.clone();
         li.rec_envelope = vec![0u8; 32 + m.nh];
         let mut found = None;
-        for d in r4.draws.iter().filter(|d| d.bytes.len() == m.nh) {
-            li.rec_masking_key = d.bytes.clone();
+        for (_, d) in r4.windows(m.nh) {
+            li.rec_masking_key = d;
             let l = rm::login(&suite, &li, &stretch).ok_or_else(|| Fail::new("reference login failed on witnessed values"))?;
             if l.ke2 == ke2_b {
                 found = Some(l);
